@@ -66,6 +66,7 @@ class GenCfg:
     first_row: int = 3
     ops: Tuple[str, ...] = ("in", "in", "out", "out", "out", "intra")  # operation mix once something is held
     bulk_prob: float = 0.0  # probability of a "volume" tail: one funding lot + 60..180 small rows of a few types (template/sheet sizing)
+    zero_received_transfers: bool = True  # now and then a transfer whose whole amount is its fee (received == 0)
     shared_uid_prob: float = 0.0  # probability that a row reuses the previous row's unique id (one on-chain hash entered as several rows)
 
 
@@ -357,6 +358,8 @@ def history(draw: Any, cfg: GenCfg = GenCfg()) -> Dict[str, Any]:
             fee_units = 0
             if take > 1 and draw(st.integers(0, 1)) == 0:
                 fee_units = max(1, min(take - 1, draw(st.sampled_from([1, take // 1000 or 1, take // 50 or 1]))))
+            elif cfg.zero_received_transfers and draw(st.integers(0, 7)) == 0:
+                fee_units = take  # a transfer entirely eaten by its fee (dust sweep): crypto_received is exactly 0
             row = {
                 "table": "intra",
                 "row": state.next_row,
